@@ -1,5 +1,5 @@
 (* C12 — Delete removes only what it reports, and reports it exactly. *)
-From KV Require Import Base Model Spec LogInv DeleteProofs.
+From KV Require Import Base Model Helpers Spec LogInv DeleteProofs CompactProofs MultiProofs.
 
 (* for every state satisfying Inv and every offset set: a successful Delete either deletes nothing and
    leaves the state as it is, or
@@ -40,3 +40,36 @@ Theorem C12_empty :
   forall (H : bytes -> Z) st c, opened st = Some c -> cro c = false -> log_delete H st [] = Ok (st, ([], 0)).
 Proof. exact log_delete_empty. Qed.
 Print Assumptions C12_empty.
+
+(* DeleteMulti over a set of live offsets (spread over any number of segments) removes all of them and nothing
+   else, reports exactly them, leaves NextOffset and the invariant intact and reports no error *)
+Theorem C12_delete_multi :
+  forall (H : bytes -> Z) c fuel st remaining accm accs,
+  Inv st -> opened st = Some c -> cro c = false ->
+  (forall o, In o remaining -> exists m, In m (live (abs st)) /\ moff m = o) ->
+  (length remaining < fuel)%nat ->
+  exists st' del size,
+    delete_multi H fuel st remaining accm accs = (st', accm ++ del, accs + size, None) /\
+    Inv st' /\ opened st' = Some c /\ anext (abs st') = anext (abs st) /\
+    live (abs st') = remove_offs (live (abs st)) remaining /\
+    (forall x, In x del <-> In x (live (abs st)) /\ In (moff x) remaining).
+Proof. exact delete_multi_live. Qed.
+Print Assumptions C12_delete_multi.
+
+(* one pass always makes progress on a live offset *)
+Theorem C12_delete_progress :
+  forall (H : bytes -> Z) c st offs m,
+  Inv st -> opened st = Some c -> cro c = false -> offs <> [] ->
+  In m (live (abs st)) -> moff m = zmin_list offs ->
+  exists st' deleted size, log_delete H st offs = Ok (st', (deleted, size)) /\ In m deleted.
+Proof. exact log_delete_progress. Qed.
+Print Assumptions C12_delete_progress.
+
+(* deleting again deletes nothing: offsets none of which is live leave the log exactly as it is *)
+Theorem C12_delete_again :
+  forall (H : bytes -> Z) c st offs st' deleted size,
+  Inv st -> opened st = Some c ->
+  (forall m, In m (live (abs st)) -> ~ In (moff m) offs) ->
+  log_delete H st offs = Ok (st', (deleted, size)) -> deleted = [] /\ st' = st /\ size = 0.
+Proof. exact log_delete_dead. Qed.
+Print Assumptions C12_delete_again.
